@@ -117,6 +117,7 @@ func safeParse(f func() (mpath.Operation, error)) (out parseOut) {
 //	2  the last readable bytes together with the error, the error again on every later Read
 //	3  (0, err) once, then io.EOF
 //	4  like 0 and 5 like 3, the error being io.ErrUnexpectedEOF (an error value of the io package itself)
+//	6  like 0 and 7 like 3, the error's text being "invalid char escape" (a message of text/scanner's own)
 type planReader struct {
 	data   []byte
 	pos    int
@@ -128,6 +129,7 @@ type planReader struct {
 }
 
 var errInjected = errors.New("injected read fault")
+var errEscapeText = errors.New("invalid char escape")
 
 func (r *planReader) Read(p []byte) (int, error) {
 	n := len(p)
@@ -142,8 +144,11 @@ func (r *planReader) Read(p []byte) (int, error) {
 	if r.mode >= 4 {
 		fault = io.ErrUnexpectedEOF // the fault is whatever error the reader's source produced: also one of io's own values
 	}
+	if r.mode >= 6 {
+		fault = errEscapeText // … or an error whose text happens to be one of text/scanner's own messages
+	}
 	if r.failed {
-		if r.mode == 1 || r.mode == 3 || r.mode == 5 {
+		if r.mode == 1 || r.mode == 3 || r.mode == 5 || r.mode == 7 {
 			return 0, io.EOF
 		}
 		return 0, fault
@@ -156,7 +161,7 @@ func (r *planReader) Read(p []byte) (int, error) {
 		if k > 0 {
 			copy(p, r.data[r.pos:r.pos+k])
 			r.pos += k
-			if r.mode == 0 || r.mode == 3 || r.mode == 4 || r.mode == 5 || r.pos < r.failAt {
+			if r.mode == 0 || r.mode == 3 || r.mode == 4 || r.mode == 5 || r.mode == 6 || r.mode == 7 || r.pos < r.failAt {
 				return k, nil // the fault comes with the next Read
 			}
 			r.failed = true
@@ -269,7 +274,7 @@ func parseJob(payload string) string {
 	})
 	rep.FaultAt = faultAt
 	if faultAt >= 0 {
-		for mode := 0; mode < 6; mode++ {
+		for mode := 0; mode < 8; mode++ {
 			rep.Fault = safeParse(func() (mpath.Operation, error) {
 				return mpath.ParseReadSeeker(&planReader{data: data, plan: plan, failAt: faultAt, mode: mode})
 			})
